@@ -302,6 +302,7 @@ def write_evidence(run, mod, args, results, unsupported, bounded, eng=None, miss
 		'outside_subset': [list(u) for u in unsupported],
 		'missing_from_lock': list(missing)[:50],
 		'library_contracts_used': sorted(eng.assumptions_used) if eng else [],
+		'inlined_without_contract': sorted(eng.inlined_without_contract) if eng else [],
 		'machinery_errors': run.machinery_errors,
 		'repo': args.repo,
 	}
